@@ -123,9 +123,10 @@ Definition rereq_pmsg (r : rereq) : pmsg :=
      p_complete := false |}.
 
 (* the loop over the unpacked messages: each is delivered, followed at once by the completed
-   message when it was the last missing packet.  The completed Message shares the JTMessage of
-   that last packet (newTerminalMessage(msg.JTMessage, data); completeMsg.Body = data), so the
-   packet's own message shows the whole body too *)
+   message when it was the last missing packet.  The completed Message is built on the
+   JTMessage of that last packet (newTerminalMessage(msg.JTMessage, data); completeMsg.Body = data
+   writes through the still shared pointer), so the packet's own message shows the whole body too;
+   afterwards the completed message gets its own JTMessage / Header copy (fix a3fb0a0) *)
 Fixpoint cp_loop (now : N) (s : pstate) (ms : list (list N * msg)) : pstate * list pmsg :=
   match ms with
   | [] => (s, [])
